@@ -243,6 +243,11 @@ impl Sched {
         self.tasks[id].done
     }
 
+    /// First task that has not finished and whose name satisfies `pred`.
+    pub fn find_live_task(&self, pred: impl Fn(&str) -> bool) -> Option<usize> {
+        self.tasks.iter().position(|t| !t.done && pred(&t.name))
+    }
+
     pub fn task_by_name(&self, name: &str) -> Option<usize> {
         self.tasks.iter().position(|t| t.name == name)
     }
